@@ -22,3 +22,10 @@ def cmd(name, harness, flavour, procs=1, args=(), **kw):
     d = dict(kind="cmd", name=name, harness=harness, flavour=flavour, procs=procs, args=list(args))
     d.update(kw)
     return d
+
+
+def tsan(prop, procs=4, iters=80, **kw):
+    """freerun leg under ThreadSanitizer: visibility clause (payload races only), see harness/tsan_payload.cpp, bin/leg_tsan.py"""
+    d = dict(kind="tsan", name="tsan-payload", harness="harness/tsan_payload.cpp", flavour="tsan", prop=prop, procs=procs, iters=iters, optional=True)
+    d.update(kw)
+    return d
